@@ -28,6 +28,7 @@
 
 #include <assert.h>
 #include <zlib.h>
+#include <limits.h>
 #include "list.h"
 #include "erasurecode.h"
 #include "erasurecode_backend.h"
@@ -136,8 +137,12 @@ ec_backend_t liberasurecode_backend_instance_get_by_desc(int desc)
 int liberasurecode_backend_alloc_desc(void)
 {
     for (;;) {
-        if (++next_backend_desc <= 0)
+        /* wrap explicitly: incrementing past INT_MAX is undefined behaviour
+         * and an optimizing compiler may drop the "<= 0" test */
+        if (next_backend_desc < 0 || next_backend_desc >= INT_MAX)
             next_backend_desc = 1;
+        else
+            next_backend_desc++;
         if (!liberasurecode_backend_instance_get_by_desc_locked(next_backend_desc))
             return next_backend_desc;
     }
